@@ -11,6 +11,7 @@ import SkNet.Lemmas.CutExact
 import SkNet.Lemmas.Aggregate
 import SkNet.Lemmas.Reorder
 import SkNet.Lemmas.MergeW
+import SkNet.Lemmas.DasguptaInit
 
 namespace SkNet.C08
 open SkNet SkNet.Dendro SkNet.Cut
@@ -615,5 +616,111 @@ example : SkNet.Agg.getEntry (SkNet.Agg.mergeNb
     SkNet.Agg.getEntry (SkNet.Agg.mergeNb
       ([(0, [(1, 2), (2, 1)]), (1, [(0, 2), (2, 3)]), (2, [(0, 1), (1, 3)])] : Dict (Dict Rat)) 0 1 3) 3 3 = 4 := by
   decide +kernel
+
+
+/-! ### Dasgupta's cost and score -/
+
+section dasgupta
+open SkNet.HMetrics SkNet.Agg
+
+/-- **Dasgupta's normalised cost and score lie in [0, 1]** (`dasgupta_score_range`), on the model of
+    `get_sampling_distributions` / `dasgupta_cost` / `dasgupta_score` (the replay of `AggregateGraph.merge` along
+    the dendrogram): for every square non-negative matrix with positive total weight, both node weightings
+    (`uniform`, `degree`) and every valid dendrogram over its `n ≥ 2` nodes, the functions return, the edge sampling
+    values are non-negative and sum to 1, every cluster weight is in [0, 1], hence
+    `0 ≤ dasgupta_cost(normalized=True) ≤ 1` and `0 ≤ dasgupta_score ≤ 1`. -/
+theorem dasgupta_score_range {n : Nat} {a : Mat} {D : Dendro α} (degree : Bool) (hn : 2 ≤ n) (hsq : Square n a)
+    (hnn : ∀ i j, 0 ≤ a.get i j) (htot : 0 < a.total) (hv : ValidDendro n D = true) :
+    ∃ c, dasguptaCost degree true n a D = .ok c ∧ 0 ≤ c ∧ c ≤ 1 ∧
+      dasguptaScore degree n a D = .ok (1 - c) ∧ 0 ≤ 1 - c ∧ 1 - c ≤ 1 := by
+  have hlen := valid_length hv
+  have hvl : validLoop n 0 D (liveInit (List.replicate n 1)) = true := by
+    unfold ValidDendro ValidDendroW at hv
+    simp only [Bool.and_eq_true, List.length_replicate] at hv
+    exact hv.2
+  rw [validLoop_eq_isSome] at hvl
+  obtain ⟨Lf, hLf⟩ := Option.isSome_iff_exists.mp hvl
+  have hinit : LInv n 0 (liveInit (List.replicate n 1)) := by simpa using linv_init (List.replicate n 1)
+  have hJ0 := jinv_init degree (by omega : 0 < n) hsq hnn htot
+  have hk0 : Dict.keys (instantiate degree n a).outW = Dict.keys (liveInit (List.replicate n 1)) := by
+    unfold instantiate AggGraph.init liveInit
+    simp [Dict.keys, Function.comp_def]
+  have hA0 : AccInv n (instantiate degree n a) { edge := [], node := [], weight := [] } := by
+    refine ⟨?_, by simp, by simp, rfl⟩
+    unfold psi
+    have hkeys : Dict.keys (instantiate degree n a).outW = List.range n := by
+      unfold instantiate AggGraph.init; simp [Dict.keys, Function.comp_def]
+    rw [hkeys, S_congr (g := fun _ => 0) (by intro x hx; simp only [List.mem_range] at hx; simp [Nat.not_le.mpr hx])]
+    simp [S_zero]
+  obtain ⟨hJf, hkf, hAf⟩ := samplingLoop_spec D 0 _ _ _ Lf hJ0 hk0 hinit hLf hA0
+  -- a single cluster is left: the last node created
+  have hLfLen : Lf.length = 1 := by
+    have := (liveAfter_linv D 0 _ Lf hinit hLf).2
+    simp only [liveInit, List.length_map, List.length_range, List.length_replicate] at this
+    omega
+  obtain ⟨pre, r, hD⟩ : ∃ pre r, D = pre ++ [r] := by
+    rcases List.eq_nil_or_concat D with h | ⟨pre, r, h⟩
+    · subst h; simp at hlen; omega
+    · exact ⟨pre, r, by rw [h, List.concat_eq_append]⟩
+  have hkeysLf : Dict.keys Lf = [n + pre.length] := by
+    subst hD
+    rw [liveAfter_append] at hLf
+    cases hLp : liveAfter n 0 pre (liveInit (List.replicate n 1)) with
+    | none => simp [hLp] at hLf
+    | some Lp =>
+      simp only [hLp, Option.bind_some, Nat.zero_add, liveAfter] at hLf
+      cases hs : liveStep n pre.length r Lp with
+      | none => simp [hs] at hLf
+      | some L1 =>
+        simp only [hs, Option.bind_some, Option.some.injEq] at hLf
+        subst hLf
+        have hLpInv : LInv n pre.length Lp := by
+          have := (liveAfter_linv pre 0 _ Lp hinit hLp).1
+          simpa using this
+        obtain ⟨_, _, _, hk⟩ := keys_liveStep hLpInv hs
+        have hl : (Dict.keys L1).length = 1 := by simp [Dict.keys, hLfLen]
+        rw [hk] at hl ⊢
+        simp only [List.length_append, List.length_cons, List.length_nil] at hl
+        have : ((Dict.keys Lp).filter (· != r.i)).filter (· != r.j) = [] :=
+          List.eq_nil_of_length_eq_zero (by omega)
+        rw [this]; rfl
+  have hge : n ≤ n + pre.length := by omega
+  -- the sum of the edge sampling values is the whole weight
+  have hsum : (samplingLoop n D (instantiate degree n a) { edge := [], node := [], weight := [] }).edge.sum = 1 := by
+    rw [← hAf.psiEq]
+    unfold psi
+    rw [hkf, hkeysLf]
+    have hphi := hJf.phi
+    rw [hkf, hkeysLf] at hphi
+    simp only [S_cons, S_nil, add_zero, hge, if_true] at hphi ⊢
+    exact hphi
+  have hrange := dot_range _ _ hAf.edgeNonneg hAf.weightRange
+  rw [hsum] at hrange
+  have htake : D.take (n - 1) = D := List.take_of_length_le (by omega)
+  have hcost : dasguptaCost degree true n a D =
+      .ok (dot (samplingLoop n D (instantiate degree n a) { edge := [], node := [], weight := [] }).edge
+        (samplingLoop n D (instantiate degree n a) { edge := [], node := [], weight := [] }).weight) := by
+    unfold dasguptaCost getSamplingDistributions
+    have e1 : (a.total == 0) = false := by
+      have : a.total ≠ 0 := ne_of_gt htot
+      simpa using this
+    have e2 : ¬ n < 2 := by omega
+    have e3 : ¬ D.length + 1 < n := by omega
+    simp only [e1, Bool.false_and, Bool.false_eq_true, if_false, e2, e3, htake, if_true]
+  refine ⟨_, hcost, ?_, ?_, ?_, ?_, ?_⟩
+  · unfold dot; rw [sumR_eq_sum]; exact hrange.1
+  · unfold dot; rw [sumR_eq_sum]; exact hrange.2
+  · unfold dasguptaScore; rw [hcost]; rfl
+  · unfold dot; rw [sumR_eq_sum]; linarith [hrange.2]
+  · unfold dot; rw [sumR_eq_sum]; linarith [hrange.1]
+
+/-- non-vacuity: a weighted triangle and a valid dendrogram over its 3 nodes; the normalised cost is 5/6 -/
+example : Square 3 ([[0, 2, 1], [2, 0, 3], [1, 3, 0]] : Mat) ∧
+    ValidDendro 3 ([⟨1, 2, 1, 2⟩, ⟨3, 0, 2, 3⟩] : Dendro Nat) = true ∧
+    (dasguptaCost false true 3 [[0, 2, 1], [2, 0, 3], [1, 3, 0]]
+      ([⟨1, 2, 1, 2⟩, ⟨3, 0, 2, 3⟩] : Dendro Nat)).toOption = some (5 / 6) := by
+  refine ⟨⟨rfl, by decide⟩, by decide, by decide +kernel⟩
+
+end dasgupta
 
 end SkNet.C08
